@@ -29,6 +29,10 @@ for gate; see `known_findings.json`), so what is proved here is (partial):
   return bit is mapped to a qubit"), `compile_inputs_first` (arguments on qubits `0..n-1`),
   `compile_bookkeeping`; with the corollaries `compile_remove_identities_preserves` and
   `compile_reverse_replay_undoes`.  They say nothing about the *values* on the qubits.
+* a **semantic fragment theorem** `C02_fragment_partial`: on the decidable class `inFragment` (one
+  definition `r = e`, `e` a Not/And/Or/Xor expression over the arguments in which no compound
+  sub-expression occurs twice) every successful run of `compile`, with and without final
+  uncomputation, for every admissible ancilla-choice sequence, is `Correct`.
 -/
 namespace QV.C02
 open QV QV.Compiler
